@@ -24,6 +24,7 @@ import atexit
 import itertools
 import os
 import shutil
+import sys
 import stat as statmod
 import tempfile
 from email.utils import formatdate, parsedate_to_datetime
@@ -113,9 +114,16 @@ ETAG = "<E>"  # the symbol "opaque entity-tag of response j" inside a parsed / g
 # ---------------------------------------------------------------------------------------------
 # the world: one real file in a temp directory, os.stat virtualised for that path only
 
-_DIR = os.path.abspath(tempfile.mkdtemp(prefix="c14-"))
+# (the directory is also reachable as `static` inside an importable package: Files("static", package=...))
+_ROOT = os.path.abspath(tempfile.mkdtemp(prefix="c14-"))
+_PKG = "c14pkg%d" % os.getpid()
+_DIR = os.path.join(_ROOT, _PKG, "static")
+os.makedirs(_DIR)
+with open(os.path.join(_ROOT, _PKG, "__init__.py"), "w") as _f:
+    _f.write("")
+sys.path.insert(0, _ROOT)
 _FILE = os.path.join(_DIR, "index.html")
-atexit.register(shutil.rmtree, _DIR, True)
+atexit.register(shutil.rmtree, _ROOT, True)
 
 _VIRT = {}
 _real_stat = os.stat
@@ -152,8 +160,8 @@ def _app(iface, app):
         mod = wsgi_static if iface == "wsgi" else asgi_static
         base, _, opt = app.partition("+")
         kw = {"": {}, "nc": {"cacheability": "no-cache"}, "ns": {"cacheability": "no-store"},
-              "pr": {"cacheability": "private", "max_age": 0}}[opt]
-        _APPS[key] = (mod.Files if base == "files" else mod.Pages)(_DIR, **kw)
+              "pr": {"cacheability": "private", "max_age": 0}, "pk": {"package": _PKG}}[opt]
+        _APPS[key] = (mod.Files if base == "files" else mod.Pages)("static" if opt == "pk" else _DIR, **kw)
     return _APPS[key]
 
 
@@ -161,7 +169,7 @@ def _app(iface, app):
 # application asked for must not change WHEN a copy revalidates)
 _PATH = {"files": "/index.html", "pages": "/", "pagesx": "/index"}
 for _b in ("files", "pages", "pagesx"):
-    for _o in ("nc", "ns", "pr"):
+    for _o in ("nc", "ns", "pr", "pk"):
         _PATH["%s+%s" % (_b, _o)] = _PATH[_b]
 _LOOP = None
 
@@ -932,7 +940,7 @@ def cases(rng, tier):
     for idx, abstract in enumerate(exhaustive(3, core, False, allmods)):
         tps, step = TICKS[idx % 3]
         ops = concretise(abstract, tps, step, BASE)
-        for opt in ("nc", "ns", "pr"):
+        for opt in ("nc", "ns", "pr", "pk"):
             for iface in ("wsgi", "asgi"):
                 yield hist(iface, ("files", "pages")[idx % 2] + "+" + opt, tps, 20, BASE * tps, BASE * tps, ops)
     for i in range(n_random):
